@@ -576,6 +576,28 @@ static void fam_long(void)
 			one(1, 0);
 			one(0, 1);
 		}
+	/* several long strings in one text: the scanner's token buffer is reused (and regrown) across tokens */
+	{
+		static const int big[] = {3000, 4090, 5000, 9000, 12000, 20000};
+		for (unsigned a = 0; a < 6; a++)
+			for (unsigned b = 0; b < 6; b++)
+				for (int shape = 0; shape < 3; shape++)
+				{
+					if (big[a] + big[b] > 30000)
+						continue;
+					sb_reset(&txt);
+					sb_puts(&txt, shape == 0 ? "[\"" : shape == 1 ? "{\"" : "\"");
+					for (int i = 0; i < big[a]; i++)
+						sb_putc(&txt, (char)('a' + i % 26));
+					sb_puts(&txt, shape == 0 ? "\",\"" : shape == 1 ? "\":\"" : "\\n");
+					for (int i = 0; i < big[b]; i++)
+						sb_putc(&txt, (char)('A' + i % 25));
+					sb_puts(&txt, shape == 0 ? "\"]" : shape == 1 ? "\"}" : "\"");
+					set_text(txt.p, txt.n);
+					one((int)(a & 1), (int)(b & 1));
+					one((int)(~a & 1), (int)(~b & 1));
+				}
+	}
 	/* long numbers */
 	for (int digits = 17; digits <= 70; digits += (digits < 24 ? 1 : 9))
 		for (int form = 0; form < 4; form++)
